@@ -139,6 +139,7 @@ fn b(d: u32, k: u32) -> String {
 ///   0c s          SSTORE s := NUMBER (the block number the code observes)
 ///   0d k s        SSTORE s := ENV_k mod 999983, k = 1 GASLIMIT 2 COINBASE 3 BASEFEE 4 GASPRICE 5 BLOBBASEFEE 6 SELFBALANCE
 ///                 7 CALLVALUE 8 CHAINID (block/transaction environment that is fixed by the protocol)
+///   0e back s     SSTORE s := 1 if BLOCKHASH(NUMBER - back) is non-zero, 2 if it is zero
 ///   10..14 t..    LOG0..LOG4 with 1-byte topics, no data
 ///   anything else STOP
 pub fn cell_runtime() -> Vec<u8> {
@@ -161,6 +162,7 @@ cont:
   DUP1 #11 EQ @op_callext JUMPI
   DUP1 #12 EQ @op_number JUMPI
   DUP1 #13 EQ @op_env JUMPI
+  DUP1 #14 EQ @op_bh JUMPI
   DUP1 #0x10 EQ @op_log0 JUMPI
   DUP1 #0x11 EQ @op_log1 JUMPI
   DUP1 #0x12 EQ @op_log2 JUMPI
@@ -188,6 +190,8 @@ op_ret:
   POP {b11} SLOAD #0 MSTORE #32 #0 RETURN
 op_number:
   POP NUMBER {b21} SSTORE #2 ADD @loop JUMP
+op_bh:
+  POP {b11} NUMBER SUB BLOCKHASH ISZERO #1 ADD {b22} SSTORE #3 ADD @loop JUMP
 op_env:
   POP {b11}
   DUP1 #1 EQ @e1 JUMPI
@@ -319,6 +323,18 @@ pub fn encode_ops(ops: &serde_json::Value) -> Vec<u8> {
             "invalid" => out.push(10),
             "number" => out.extend_from_slice(&[12, byte("s")]),
             "env" => out.extend_from_slice(&[13, byte("k"), byte("s")]),
+            "bh" => out.extend_from_slice(&[14, byte("back"), byte("s")]),
+            // the callee's address is resolved by the player into `addr` (20 bytes, hex) before encoding
+            "callext" => {
+                let inner = encode_ops(&op["ops"]);
+                assert!(inner.len() < 256);
+                let addr = hex::decode(op["addr"].as_str().unwrap_or("").trim_start_matches("0x")).unwrap_or_default();
+                assert_eq!(addr.len(), 20, "callext without a resolved address");
+                out.push(11);
+                out.extend_from_slice(&addr);
+                out.push(inner.len() as u8);
+                out.extend_from_slice(&inner);
+            }
             "log" => {
                 let topics = op["t"].as_array().cloned().unwrap_or_default();
                 out.push(0x10 + topics.len() as u8);
